@@ -19,7 +19,7 @@ RULE = ("one evaluation = one seeded history (<= 60 operations on a dataset of <
         "even-odd polygon test), and at the end with a freshly built dataset given the same final settings. "
         "non-trivial = >=1 setting change and >=1 comparison; distinct = distinct event-log digests")
 STATE_MEASURE = "distinct (active ranges, #polygons, invalid flag, enabled flag, limit>0, manual-any, previous operation kind) tuples"
-PROBES = ["lookalike_dataset_filtered_before", "polygon_removed_via_config", "half_specified_range", "apply_failed_on_half_range", "range_removed_after_apply", "range_reversed", "range_min_eq_max", "bound_tied_with_data", "nan_in_range_feature",
+PROBES = ["settings_transferred_to_second_dataset", "lookalike_dataset_filtered_before", "polygon_removed_via_config", "half_specified_range", "apply_failed_on_half_range", "range_removed_after_apply", "range_reversed", "range_min_eq_max", "bound_tied_with_data", "nan_in_range_feature",
           "polygon_modified_in_place", "polygon_inverted", "polygon_removed", "limit_binding", "limit_not_binding",
           "disabled", "reset_with_state", "manual_edit", "force_apply", "file_backed", "apply_twice_same"]
 COMPONENTS = {"real": ["dclab Filter.update / RTDCBase.apply_filter / Configuration", "dclab PolygonFilter + compiled points_in_poly",
@@ -153,6 +153,9 @@ class World:
                 fin = v[np.isfinite(v)]
                 return {"k": "complete_range", "feat": half[0], "val": float(fin[r.randrange(fin.size)]) if fin.size else 0.5}
         x = r.random()
+        if x < 0.07 and x >= 0.04:
+            # the settings are transferred to a second dataset (config.update), which then gets a polygon of its own
+            return {"k": "twin_transfer", "dseed": r.randrange(1 << 30), "how": r.choice(["config", "section"])}
         if x < 0.04:
             f = r.choice(FEATS)
             v = self.data[f]
@@ -219,6 +222,26 @@ class World:
             if np.isnan(v).any():
                 ctx.probe("nan_in_range_feature")
             ctx.log("a", f"set_range {f}", seeds.short_hash([op["lo"], op["hi"]]))
+        elif k == "twin_transfer":
+            import dclab
+            half = [f for f in FEATS if (f + " min" in cfg) != (f + " max" in cfg)]
+            if half:
+                return
+            twin = dclab.new_dataset({f: v.copy() for f, v in self.data.items()})
+            with ctx.sut("C03.twin"), warnings.catch_warnings():
+                warnings.simplefilter("ignore")
+                if op["how"] == "config":
+                    twin.config.update(ds.config)
+                else:
+                    twin.config.update({"filtering": ds.config["filtering"]})
+                pts = self.poly_points(op["dseed"], ["area_um", "deform"])
+                pf2 = dclab.PolygonFilter(axes=("area_um", "deform"), points=pts)
+                twin.polygon_filter_add(pf2)
+                twin.apply_filter()
+            self.twins = getattr(self, "twins", []) + [(twin, pf2)]
+            self.foreign_ids = getattr(self, "foreign_ids", set()) | {pf2.unique_id}
+            ctx.probe("settings_transferred_to_second_dataset")
+            ctx.log("a", f"twin_transfer {op['how']}")
         elif k == "half_range":
             f = op["feat"]
             if f + " min" in cfg or f + " max" in cfg:
@@ -352,6 +375,9 @@ class World:
         judgeable = True
         for pid in cfg["polygon filters"]:
             pf = [p for p in self.polys if p.unique_id == pid]
+            if not pf and pid in getattr(self, "foreign_ids", set()):
+                self.ctx.violation("C03.polygon", f"the settings list polygon filter {pid}, which was registered with ANOTHER dataset only "
+                                                  f"(after this dataset's settings were transferred to it)", sig={"what": "foreign_polygon"})
             if not pf:
                 return None
             pf = pf[0]
